@@ -79,6 +79,9 @@ type Plan struct {
 	Nth  []uint32 `json:"nth,omitempty"`
 	Us   []uint32 `json:"us,omitempty"`
 	Rep  int      `json:"rep,omitempty"` // repetition index for unplanned runs
+	// Noise != 0: no stall plan; instead every site yields with ~4 % and sleeps up to 60 us with ~0.3 %
+	// probability, from a PRNG seeded with this value
+	Noise uint64 `json:"noise,omitempty"`
 }
 
 func (p Plan) Empty() bool { return len(p.Site) == 0 }
@@ -508,6 +511,11 @@ func blockedLibFrames(stacks string) string {
 
 func applyPlan(pl Plan) {
 	vhook.Reset()
+	if pl.Noise != 0 {
+		vhook.Configure(2600, 200, 60, pl.Noise)
+		vhook.SetMode(vhook.Noise)
+		return
+	}
 	if pl.Empty() {
 		vhook.SetMode(vhook.Off)
 		return
@@ -529,6 +537,7 @@ type ExploreOpts struct {
 	Pairs     int      // sampled depth-2 plans
 	MaxCases  int      // cap on depth-1 cases (0 = none)
 	NoProfile bool
+	Noise     int // runs under the noise hook (random yields and short sleeps at every site)
 }
 
 func (c *RunCtx) siteMatches(id int, funcs []string) bool {
@@ -569,6 +578,10 @@ func (p *Prog) Explore(run func(pl Plan) *Result, o ExploreOpts) {
 				if r.St == nil {
 					r.St = map[string]float64{}
 				}
+				if pl.Noise != 0 {
+					r.St["noise_runs"]++
+					r.Sig = fmt.Sprintf("%s-n%x", r.Sig, pl.Noise)
+				}
 				if !pl.Empty() {
 					r.St["placements_run"]++
 					if fired > 0 {
@@ -591,6 +604,10 @@ func (p *Prog) Explore(run func(pl Plan) *Result, o ExploreOpts) {
 	}
 	for i := 0; i < o.Base; i++ {
 		pl := Plan{Rep: i}
+		p.Case(pl, wrap(pl))
+	}
+	for i := 0; i < o.Noise; i++ {
+		pl := Plan{Rep: i, Noise: p.Rng.Next() | 1}
 		p.Case(pl, wrap(pl))
 	}
 	if o.K == 0 && o.Pairs == 0 {
